@@ -12,6 +12,189 @@ use std::time::Instant;
 /// The number of milliseconds a task can be waiting in the pool before the pool is considered overloaded.
 const OVERLOAD_THRESHOLD: u128 = 100;
 
+/// Verification hook H3: a global, totally ordered record of the pool's scheduling-relevant steps.
+///
+/// Only compiled with `--cfg humphrey_verif`. An event is recorded at the point where the step it describes has
+/// just taken effect (receiver mutex acquired, `recv` returned) or is about to take effect (a message is sent
+/// while the trace lock is still held), so the order of the records is a linearisation of the real execution.
+#[cfg(humphrey_verif)]
+pub mod verif_trace {
+    use super::Message;
+
+    use std::cell::Cell;
+    use std::sync::atomic::{AtomicU64, Ordering};
+    use std::sync::mpsc::{Receiver, RecvError};
+    use std::sync::{Arc, Mutex, MutexGuard, PoisonError};
+
+    /// One recorded step.
+    #[derive(Clone, Copy, Debug, PartialEq, Eq)]
+    pub enum Event {
+        /// `ThreadPool::start` entered with this thread count (before any worker is spawned).
+        Start(usize),
+        /// `ThreadPool::execute`: the task message is sent while the trace lock is held.
+        Execute,
+        /// `ThreadPool::stop`: the `Shutdown` message is sent while the trace lock is held.
+        Stop,
+        /// `Drop for ThreadPool` entered.
+        DropBegin,
+        /// `Drop for ThreadPool` body finished (the fields, including the `Sender`, are dropped right after).
+        DropEnd,
+        /// Worker acquired the receiver mutex (recorded while holding it).
+        Acquire(usize),
+        /// `recv` returned a task (recorded while still holding the receiver mutex).
+        RecvTask(usize),
+        /// `recv` returned `Shutdown` (recorded while still holding the receiver mutex).
+        RecvShutdown(usize),
+        /// `recv` failed: channel closed and empty (recorded while still holding the receiver mutex).
+        RecvClosed(usize),
+        /// The receiver mutex was poisoned.
+        LockPoisoned(usize),
+        /// The task returned normally.
+        Finish(usize),
+        /// Worker left its loop normally.
+        Exit(usize),
+        /// `PanicMarker` dropped during unwinding: the id is sent to the recovery thread under the trace lock.
+        Notify(usize),
+        /// Recovery thread received the id, joined the dead worker, and is about to spawn the replacement.
+        Recover(usize),
+        /// Free for instrumented tasks and callers: `(kind, value)`.
+        Mark(usize, usize),
+    }
+
+    /// An event together with the worker id of the recording thread, if it is a pool worker.
+    #[derive(Clone, Copy, Debug, PartialEq, Eq)]
+    pub struct Record {
+        /// The event.
+        pub event: Event,
+        /// The id of the worker thread that recorded it (`None` for any other thread).
+        pub worker: Option<usize>,
+    }
+
+    static TRACE: Mutex<Vec<Record>> = Mutex::new(Vec::new());
+    static JITTER: AtomicU64 = AtomicU64::new(0);
+
+    thread_local! {
+        static WORKER: Cell<Option<usize>> = Cell::new(None);
+    }
+
+    fn lock() -> MutexGuard<'static, Vec<Record>> {
+        TRACE.lock().unwrap_or_else(|e| e.into_inner())
+    }
+
+    /// Declares the current thread to be worker `id`.
+    pub fn set_worker(id: usize) {
+        WORKER.with(|w| w.set(Some(id)));
+    }
+
+    /// The worker id of the current thread, if any.
+    pub fn current_worker() -> Option<usize> {
+        WORKER.with(|w| w.get())
+    }
+
+    /// Records an event and keeps the trace locked until the returned guard is dropped.
+    pub fn push_and_hold(event: Event) -> MutexGuard<'static, Vec<Record>> {
+        let mut guard = lock();
+        guard.push(Record {
+            event,
+            worker: current_worker(),
+        });
+        guard
+    }
+
+    /// Records an event.
+    pub fn push(event: Event) {
+        drop(push_and_hold(event));
+        jitter();
+    }
+
+    /// Removes and returns everything recorded so far.
+    pub fn take() -> Vec<Record> {
+        std::mem::take(&mut *lock())
+    }
+
+    /// Number of records so far that satisfy the predicate.
+    pub fn count(pred: impl Fn(&Record) -> bool) -> usize {
+        lock().iter().filter(|r| pred(r)).count()
+    }
+
+    /// The shared task receiver as a worker sees it. `lock()` and `recv()` have the shape of the calls on
+    /// `Arc<Mutex<Receiver<Message>>>`, so the worker loop is the same source text with and without the hook;
+    /// they record the acquisition of the mutex and the result of `recv` while the mutex is held.
+    pub struct TracedReceiver {
+        id: usize,
+        inner: Arc<Mutex<Receiver<Message>>>,
+    }
+
+    /// The receiver mutex guard held by worker `id`.
+    pub struct TracedGuard<'a> {
+        id: usize,
+        inner: MutexGuard<'a, Receiver<Message>>,
+    }
+
+    impl TracedReceiver {
+        /// Wraps the receiver for worker `id` and declares the current thread to be that worker.
+        pub fn new(id: usize, inner: Arc<Mutex<Receiver<Message>>>) -> Self {
+            set_worker(id);
+            Self { id, inner }
+        }
+
+        /// `Mutex::lock` on the receiver.
+        #[allow(clippy::type_complexity)]
+        pub fn lock(
+            &self,
+        ) -> Result<TracedGuard<'_>, PoisonError<MutexGuard<'_, Receiver<Message>>>> {
+            match self.inner.lock() {
+                Ok(inner) => {
+                    push(Event::Acquire(self.id));
+                    Ok(TracedGuard { id: self.id, inner })
+                }
+                Err(e) => {
+                    push(Event::LockPoisoned(self.id));
+                    Err(e)
+                }
+            }
+        }
+    }
+
+    impl TracedGuard<'_> {
+        /// `Receiver::recv` under the mutex.
+        pub fn recv(&self) -> Result<Message, RecvError> {
+            let result = self.inner.recv();
+            push(match &result {
+                Ok(Message::Function(..)) => Event::RecvTask(self.id),
+                Ok(Message::Shutdown) => Event::RecvShutdown(self.id),
+                Err(_) => Event::RecvClosed(self.id),
+            });
+            result
+        }
+    }
+
+    /// Seeds the schedule perturbation applied after each recorded event (0 switches it off).
+    pub fn set_jitter(seed: u64) {
+        JITTER.store(seed, Ordering::SeqCst);
+    }
+
+    /// Yields or briefly sleeps, pseudo-randomly, when a perturbation seed is set.
+    pub fn jitter() {
+        let mut x = JITTER.load(Ordering::Relaxed);
+        if x == 0 {
+            return;
+        }
+        x ^= x << 13;
+        x ^= x >> 7;
+        x ^= x << 17;
+        if x == 0 {
+            x = 0x9E37_79B9_7F4A_7C15;
+        }
+        JITTER.store(x, Ordering::Relaxed);
+        match x % 8 {
+            0 | 1 => std::thread::yield_now(),
+            2 => std::thread::sleep(std::time::Duration::from_micros(20 + (x >> 8) % 200)),
+            _ => (),
+        }
+    }
+}
+
 /// Represents a pool of threads.
 pub struct ThreadPool {
     thread_count: usize,
@@ -72,6 +255,9 @@ impl ThreadPool {
 
     /// Starts the thread pool.
     pub fn start(&mut self) {
+        #[cfg(humphrey_verif)]
+        verif_trace::push(verif_trace::Event::Start(self.thread_count));
+
         let (tx, rx): (Sender<Message>, Receiver<Message>) = channel();
         let rx = Arc::new(Mutex::new(rx));
         let mut threads = Vec::with_capacity(self.thread_count);
@@ -105,7 +291,11 @@ impl ThreadPool {
     /// Stops the thread pool.
     pub fn stop(&mut self) {
         self.recovery_thread = None;
+        #[cfg(humphrey_verif)]
+        let trace_guard = verif_trace::push_and_hold(verif_trace::Event::Stop);
         self.tx.send(Message::Shutdown).unwrap();
+        #[cfg(humphrey_verif)]
+        drop(trace_guard);
         self.monitor = None;
         self.started = false;
     }
@@ -127,9 +317,13 @@ impl ThreadPool {
 
         let boxed_task = Box::new(task);
         let time_into_pool = Instant::now();
+        #[cfg(humphrey_verif)]
+        let trace_guard = verif_trace::push_and_hold(verif_trace::Event::Execute);
         self.tx
             .send(Message::Function(boxed_task, time_into_pool))
             .unwrap();
+        #[cfg(humphrey_verif)]
+        drop(trace_guard);
     }
 
     /// Returns the configured number of threads.
@@ -150,6 +344,10 @@ impl Thread {
             .name(format!("{}", id))
             .spawn(move || {
                 let panic_marker = PanicMarker(id, panic_tx);
+
+                // Same `lock()` / `recv()` shape as the receiver itself; records what they return.
+                #[cfg(humphrey_verif)]
+                let rx = verif_trace::TracedReceiver::new(id, rx);
 
                 loop {
                     // When the tx pair has been dropped (shutdown initiated), we want to break out.
@@ -175,7 +373,13 @@ impl Thread {
                         }
                         Message::Shutdown => break,
                     }
+
+                    #[cfg(humphrey_verif)]
+                    verif_trace::push(verif_trace::Event::Finish(id));
                 }
+
+                #[cfg(humphrey_verif)]
+                verif_trace::push(verif_trace::Event::Exit(id));
 
                 drop(panic_marker);
             })
@@ -190,6 +394,9 @@ impl Thread {
 
 impl Drop for ThreadPool {
     fn drop(&mut self) {
+        #[cfg(humphrey_verif)]
+        verif_trace::push(verif_trace::Event::DropBegin);
+
         if let Some(mut recovery_thread) = self.recovery_thread.take() {
             if let Some(thread) = recovery_thread.0.take() {
                 thread.join().unwrap();
@@ -201,5 +408,8 @@ impl Drop for ThreadPool {
                 drop(thread)
             }
         }
+
+        #[cfg(humphrey_verif)]
+        verif_trace::push(verif_trace::Event::DropEnd);
     }
 }
